@@ -1310,6 +1310,50 @@ def empty_braces(chk):
     return n
 
 
+def literal_tables(chk):
+    """Static tables of pointers to string literals whose spellings share a prefix (and, for wide literals, the first `length` BYTES):
+    every pointer must lead to the contents of ITS literal (seeded rounds 8/10: the literal pool keyed by a prefix of the contents)."""
+    srv = fs.server('fs')
+
+    def enc(text, w):
+        return b''.join(ord(c).to_bytes(w, 'little') for c in text) + bytes(w)
+    kinds = (('', 'char', 1), ('L', 'int', 4), ('U', 'unsigned', 4), ('u', 'unsigned short', 2))
+    groups = (('ab', 'ac'), ('red', 'rod', 'rid'), ('abcd', 'abce', 'abcd'), ('%s', '%d'), ('a', 'b'), ('aaaa', 'aaab', 'aaba', 'abaa'), ('x', 'xy', 'xyz'))
+    n = 0
+    for pre, et, w in kinds:
+        for g in groups:
+            lits = [pre + '"%s"' % t for t in g]
+            units = [
+                ('pointer-array', 'const %s *const tab[] = { %s };' % (et, ', '.join(lits)), [(t, 0) for t in g]),
+                ('struct-array', 'struct { const %s *p; int n; } tab[] = { %s };' % (et, ', '.join('{ %s, %d }' % (l, i) for i, l in enumerate(lits))), [(t, 0) for t in g]),
+                ('with-offset', 'const %s *const tab[] = { %s };' % (et, ', '.join('%s + 1' % l for l in lits)), [(t, w) for t in g]),
+                ('separate-objects', ' '.join('const %s *p%d = %s;' % (et, i, l) for i, l in enumerate(lits)), None),
+                ('after-array-initialisers', '%s arr0[] = %s; %s arr1[] = %s; const %s *const tab[] = { %s };' % (et, lits[0], et, lits[-1], et, ', '.join(lits)), [(t, 0) for t in g]),
+            ]
+            for uname, src, exp in units:
+                r = srv.compile(src + '\n', cpu_s=10)
+                n += 1
+                if r.status != 0:
+                    chk.violation('literal-table/rejected', '%s rejected: %s' % (src, r.err[:160]), files={'input.c': src.encode()})
+                    continue
+                objs = L.parse_qbe_data(r.out)
+                if exp is None:
+                    got = []
+                    for i in range(len(g)):
+                        o = objs.get('p%d' % i)
+                        got += [(x[2], x[3]) for x in L.resolve_relocs(objs, o)] if o else [None]
+                    exp = [(t, 0) for t in g]
+                else:
+                    o = objs.get('tab')
+                    got = [(x[2], x[3]) for x in L.resolve_relocs(objs, o)] if o else None
+                want = [(('str', enc(t, w)), add) for t, add in exp]
+                if got != want:
+                    chk.violation('literal-table/pointer-leads-to-another-literal', '%s: pointers lead to %r, expected the contents %r' % (
+                        src, [(x[0][1].hex() if x and x[0][0] == 'str' else x) for x in (got or [])], [x[0][1].hex() for x in want]), files={'input.c': src.encode()},
+                        cmd='$CPROC_QBE input.c | grep data')
+    return n
+
+
 def main(chk):
     quick = chk.quick
     TOTKEYS = ('cases', 'evals', 'compared', 'witness_warned', 'witness_split', 'witness_differ', 'expected_reject', 'd_run',
@@ -1411,14 +1455,16 @@ def main(chk):
     nshared = shared_typedef(chk)
     nste = string_then_element(chk)
     nempty = empty_braces(chk)
+    nlit = literal_tables(chk)
     cov = {
         'states': len(states),
         'transitions': len(trans),
         'traces_validated_against_impl': tot['evals'],
         'samples': samples or [{'none': True}],
-        'evaluations': tot['evals'] + tot['cross_target'] + tot['d_compared'] + tot['variants'] + nshared + nste + nempty,
+        'evaluations': tot['evals'] + tot['cross_target'] + tot['d_compared'] + tot['variants'] + nshared + nste + nempty + nlit,
         'shared_typedef_units': nshared,
         'empty_braces_units': nempty,
+        'literal_table_units': nlit,
         'string_then_element_objects': nste,
         'thread_and_compound_literal_variants_compared': tot['variants'],
         'cases': tot['cases'],
